@@ -13,7 +13,7 @@
 (***************************************************************************)
 EXTENDS Arith, Json
 
-CONSTANTS Fams,   \* the families enumerated in this run: subset of {"pow", "powT", "koch", "sqp", "sqn", "ip"}
+CONSTANTS Fams,   \* the families enumerated in this run: subset of {"pow", "powT", "koch", "sqp", "sqn", "ip", "big"}
           P       \* record of bounds
 
 VARIABLE st
@@ -23,11 +23,12 @@ PQuick == [ ModHi |-> 101, Even |-> {2, 4, 6, 8, 10, 12, 16}, ELo |-> -40, EHi |
             CoinMax |-> 23, RepMax |-> 31,
             T |-> 2048, TMods |-> {3, 5, 7, 9, 15, 21},
             TR |-> {0, 1, 3}, KLo |-> -9, KHi |-> 9, KMods |-> {3, 5, 7, 9, 11, 13, 15, 21, 23},
-            PHi |-> 400, NqAll |-> 120, RootThm |-> 400,
-            NHi |-> 60, NThm |-> 300,
+            PHi |-> 400, NqAll |-> 120, RootThm |-> 200,
+            NHi |-> 60, NThm |-> 200,
             Ip |-> { <<2, 1>>, <<2, 2>>, <<2, 3>>, <<3, 1>>, <<3, 2>>, <<3, 3>>, <<3, 4>>,
                      <<5, 1>>, <<5, 2>>, <<5, 3>>, <<5, 4>>, <<7, 1>>, <<7, 2>>, <<7, 3>> },
-            IpColl |-> 3 ]
+            IpColl |-> 3,
+            BigInit |-> {<<0, 0, 0>>, <<6, 4, 0>>, <<1, 0, 7>>}, BigDeep |-> {<<0, 0, 0>>}, BigDepth |-> 2, BigU |-> {0, 1, 7}, BigUi |-> {0, 3}, BigMax |-> 100000 ]
 PThorough == [ ModHi |-> 257, Even |-> {2, 4, 6, 8, 10, 12, 16, 18, 20, 24, 30, 32, 64, 100, 128},
             ELo |-> -70, EHi |-> 70,
             CoinMax |-> 41, RepMax |-> 61,
@@ -38,12 +39,59 @@ PThorough == [ ModHi |-> 257, Even |-> {2, 4, 6, 8, 10, 12, 16, 18, 20, 24, 30, 
             Ip |-> { <<2, 1>>, <<2, 2>>, <<2, 3>>, <<3, 1>>, <<3, 2>>, <<3, 3>>, <<3, 4>>,
                      <<5, 1>>, <<5, 2>>, <<5, 3>>, <<5, 4>>, <<5, 5>>, <<5, 6>>, <<7, 1>>, <<7, 2>>, <<7, 3>>, <<7, 4>>,
                      <<11, 1>>, <<11, 2>>, <<11, 3>>, <<13, 1>>, <<13, 2>>, <<13, 3>> },
-            IpColl |-> 5 ]
+            IpColl |-> 5,
+            BigInit |-> {<<0, 0, 0>>, <<6, 4, 0>>, <<1, 0, 7>>, <<5, 5, 0>>, <<12, 1, 3>>}, BigDeep |-> {<<0, 0, 0>>, <<6, 4, 0>>, <<1, 0, 7>>, <<5, 5, 0>>}, BigDepth |-> 2, BigU |-> {0, 1, 2, 7, 30},
+            BigUi |-> {0, 1, 2, 3, 7}, BigMax |-> 1000000 ]
 
 Moduli == {m \in 3..P.ModHi : m % 2 = 1} \cup P.Even
 ERange == P.ELo..P.EHi
 NE == P.EHi - P.ELo + 1
 OddPrimes(hi) == PrimesIn(3, hi - 1)
+
+--------------------------------------------------------------------------
+(* family big: the wrapper as a register machine.  Registers 0 and 1 are     *)
+(* worked on (register 2 only holds its initial value); every sequence of up  *)
+(* to BigDepth updating operations with non-negative operands, followed by    *)
+(* every comparison / observation.                                           *)
+RF(rs) == [i \in 0..2 |-> rs[i + 1]]
+Rec(op, d, s, u, mx) == [op |-> op, d |-> d, s |-> s, t |-> 0, u |-> u, mx |-> mx]
+BigUpd ==
+  {Rec("set_ui", d, 0, u, 0) : d \in 0..1, u \in P.BigU} \cup
+  {Rec(op, d, s, 0, mx) : op \in RegOperandOps, d \in 0..1, s \in 0..1, mx \in {0, 1}} \cup
+  {Rec(op, d, 0, u, 0) : op \in {"add_ui", "sub_ui", "mul_ui", "div_ui", "mod_ui"}, d \in 0..1, u \in P.BigUi} \cup
+  {Rec(op, d, 0, 0, 0) : op \in {"neg", "abs"}, d \in 0..1} \cup
+  {Rec(op, d, 0, u, 0) : op \in {"mul2exp", "div2exp"}, d \in 0..1, u \in {0, 2}}
+BigEnabled(o, r) == InProperty(o, r) /\ OpDefined(o, r) /\ Abs(OpValue(o, r)) <= P.BigMax
+BigObs(r) ==
+  {Rec("cmp", d, s, 0, 0) : d \in 0..1, s \in 0..2} \cup
+  UNION {{Rec("obs", d, 0, u, 0) : u \in {0, Abs(r[d])}} : d \in 0..1}
+BigDepthOf(init) == IF init \in P.BigDeep THEN P.BigDepth ELSE 1
+BigNext ==
+  /\ Len(st.hist) < BigDepthOf(st.init)
+  /\ \E o \in BigUpd :
+       /\ BigEnabled(o, RF(st.rs))
+       /\ LET after == OpAfter(o, RF(st.rs))
+              rs2 == <<after[0], after[1], after[2]>>
+          IN st' = [st EXCEPT !.rs = rs2,
+                             \* <<op, d, s, u, mixed, value of d afterwards, secure side may refuse, registers afterwards>>
+                             !.hist = Append(@, <<o.op, o.d, o.s, o.u, o.mx, OpValue(o, RF(st.rs)), B01(o.op \in PlainOnlyOps), rs2>>)]
+BigLine ==
+  LET r == RF(st.rs) IN
+  [ f |-> "big", init |-> st.init, hist |-> st.hist,
+    \* <<"cmp", d, s, the six answers>> / <<"obs", d, u, the five answers, bit length, value, is prime>>
+    obs |-> { IF o.op = "cmp" THEN <<"cmp", o.d, o.s, CmpWant(r[o.d], r[o.s])>>
+              ELSE <<"obs", o.d, o.u, ObsWant(r[o.d], o.u), Bits(Abs(r[o.d])), r[o.d], B01(IsPrime(r[o.d]))>>
+              : o \in {z \in BigObs(r) : InProperty(z, r) /\ (z.op = "cmp" => z.d # z.s)} } ]
+\* the laws that tie division, remainder, sign and order together
+ThBig ==
+  LET r == RF(st.rs) IN
+  \A i, j \in 0..1 :
+     LET x == r[i]  y == r[j] IN
+       /\ (x >= 0 /\ y > 0) => (BigVal("div", x, y, 0) * y + BigVal("mod", x, y, 0) = x /\ BigVal("mod", x, y, 0) \in 0..(y - 1))
+       /\ BigVal("neg", BigVal("neg", x, 0, 0), 0, 0) = x /\ BigVal("abs", x, 0, 0) >= 0
+       /\ BigVal("sub", BigVal("add", x, y, 0), y, 0) = x
+       /\ Cmp(x, y) = -Cmp(y, x) /\ (Cmp(x, y) = 0 <=> x = y)
+       /\ x >= 0 => BigVal("div2exp", BigVal("mul2exp", x, 2, 0), 2, 0) = x
 
 --------------------------------------------------------------------------
 (* the tree                                                                 *)
@@ -56,7 +104,8 @@ Level1 ==
   (IF "sqp"  \in Fams THEN {[k |-> "sqp", p |-> p] : p \in OddPrimes(P.PHi)} ELSE {}) \cup
   (IF "sqn"  \in Fams THEN {[k |-> "sqn", p |-> z[1], q |-> z[2]] :
                               z \in {y \in OddPrimes(P.NHi) \X OddPrimes(P.NHi) : y[1] < y[2]}} ELSE {}) \cup
-  (IF "ip"   \in Fams THEN {[k |-> "qm", fam |-> "ip", q |-> z[1], n |-> z[2]] : z \in P.Ip} ELSE {})
+  (IF "ip"   \in Fams THEN {[k |-> "qm", fam |-> "ip", q |-> z[1], n |-> z[2]] : z \in P.Ip} ELSE {}) \cup
+  (IF "big"  \in Fams THEN {[k |-> "big", init |-> z, rs |-> z, hist |-> <<>>] : z \in P.BigInit} ELSE {})
 Level2(s) ==
   CASE s.fam = "pow"  -> {[k |-> "pow", m |-> s.m, b |-> b] : b \in 0..(s.m - 1)}
     [] s.fam = "powT" -> {[k |-> "powT", m |-> s.m, b |-> b] : b \in 0..(s.m - 1)}
@@ -64,6 +113,7 @@ Level2(s) ==
     [] s.fam = "ip"   -> {[k |-> "ip", q |-> s.q, a |-> a] : a \in [1..s.n -> 0..(s.q - 1)]}
 Next == \/ st = Root /\ st' \in Level1
         \/ st.k \in {"m", "qm"} /\ st' \in Level2(st)
+        \/ st.k = "big" /\ BigNext
 Spec == Init /\ [][Next]_gvars
 
 --------------------------------------------------------------------------
@@ -99,7 +149,7 @@ ThPow(m, b) ==
      /\ \A e \in {0, 1, 2, 3, half, P.EHi} : PowNat(b, e, m) = rowP[e + 1]
      /\ \A e1, e2 \in 0..half : rowP[e1 + e2 + 1] = (rowP[e1 + 1] * rowP[e2 + 1]) % m    \* b^(x+y) = b^x b^y
      /\ cop => /\ \A e \in 1..(-P.ELo) : (PowDef(b, -e, m) * rowP[e + 1]) % m = 1 % m     \* b^-e b^e = 1
-               /\ \A e \in ERange : Pow(b, e, m) = PowDef(b, e, m)
+               /\ \A e \in {P.ELo, -17, -8, -3, -2, -1, 0, 1, 2, 3, 8, 17, P.EHi} : Pow(b, e, m) = PowDef(b, e, m)
                /\ PowSq(b, Cardinality(Units(m)), m) = 1 % m                      \* Euler
      /\ (m <= P.CoinMax /\ cop) =>                                                \* blinding is invisible
            \A r \in Units(m), e \in {P.ELo, -3, -1, 0, 1, 2, 5, P.EHi} :
@@ -205,7 +255,8 @@ Line == CASE st.k = "pow"  -> PowLine(st.m, st.b)
           [] st.k = "sqp"  -> SqpLine(st.p)
           [] st.k = "sqn"  -> SqnLine(st.p, st.q)
           [] st.k = "ip"   -> IpLine(st.q, st.a)
-IsCase == st.k \in {"pow", "powT", "koch", "sqp", "sqn", "ip"}
+          [] st.k = "big"  -> BigLine
+IsCase == st.k \in {"pow", "powT", "koch", "sqp", "sqn", "ip"} \/ (st.k = "big" /\ Len(st.hist) >= 1)
 Emit == IsCase => PrintT(ToJson(Line))
 Theorems ==
   CASE st.k = "pow"  -> ThPow(st.m, st.b)
@@ -214,5 +265,6 @@ Theorems ==
     [] st.k = "sqp"  -> ThSqp(st.p)
     [] st.k = "sqn"  -> ThSqn(st.p, st.q)
     [] st.k = "ip"   -> ThIp(st.q, st.a)
+    [] st.k = "big"  -> ThBig
     [] OTHER -> TRUE
 =============================================================================
